@@ -702,7 +702,7 @@ def build_case(res):
     contents, invalid = [], []
     res["unknown_content"] = 0
     for p, q in sel:
-        h = ref_of(res, q)
+        h = None if res["scn"].get("pair") else ref_of(res, q)
         if not q["syntax_ok"] or any((not q2["syntax_ok"]) for _, q2 in sel if q2["key"] == q["key"]):
             h = None          # the probe's boom-syntax switch changes the text (written only under formatter noop)
         if h is None:
@@ -1932,6 +1932,11 @@ def gen_scenarios(ctx, n_inj, n_combo, n_unusual, n_valid):
         out.append((s, base))
     for i in range(n_combo):
         s, base = apply_injections(rng, rng.sample(kinds, 2))
+        # two injections may touch the same sub-tree of the configuration (one strips the template-data the
+        # other set, ...): the valid base then no longer predicts the CONTENT of the files that are still
+        # written.  Pairs are judged on exit class, on which paths change and by the oracle; the content of
+        # a written file is taken as observed (counted in the evidence).
+        s["pair"] = True
         out.append((s, base))
     for i in range(n_unusual):
         s = unusual(rng, UNUSUAL[i % len(UNUSUAL)], i)
